@@ -149,9 +149,11 @@ theorem checkItem_trok {R : Rules} {cfg : Cfg} :
                     · split at h
                       · split at h
                         · simp at h
-                        · simp at h
-                        · simp at h
-                        · exact finish_trok h hngap (TrOK.nil cfg)
+                        · split at h
+                          · simp at h
+                          · simp at h
+                          · simp at h
+                          · exact finish_trok h hngap (TrOK.nil cfg)
                       · rename_i level _
                         by_cases hc : levelOk level cfg.checkLevel = true
                         · rw [if_pos hc] at h
